@@ -206,6 +206,13 @@ NATSORTED = sym.fn("NATSORTED", sym.Ref, sym.B)          # list object is sorted
 DISTINCT = sym.fn("DISTINCTNAMES", sym.Ref, sym.B)       # no two entries of the list object have the same name
 
 
+VARLIST = sym.fn("VARLIST", sym.B, sym.Ref, sym.RefArr, sym.I, sym.Ref)   # content of Problem.variables as a function of the model
+
+
+def varlist_base(s):
+    return VARLIST(s.obj_none, s.obj, s.cons, s.ncon)
+
+
 def NM(ip):
     """The arbitrary variable name of this path: every `for all names` statement is instantiated at it."""
     g = ip.path.ghost
@@ -401,6 +408,7 @@ def install_vars(reg, src):
             return z3.And(z3.Select(NAMES_OF(base), nm) == VARSET(ncon), DISTINCT(base), NATSORTED(base))
         cache_none = before.cache_none["_variables"]
         cache_base = z3.Select(st(ip, "Problem._variables", sym.Ref), P.ref)
+        reg.varlist_valid = valid
         if c.verifying:
             c.assume(cache_none if c.case["cache"] == "none" else z3.Not(cache_none))
             c.assume(before.obj_none if c.case["objective"] == "none" else z3.Not(before.obj_none))
@@ -408,7 +416,8 @@ def install_vars(reg, src):
         else:
             c.requires(z3.Implies(z3.Not(cache_none), valid(cache_base)), name="cache invariant")
             havoc_fields(ip, P, ["_variables"])
-        c.returns(lambda cc: ip.schema.seq_of_base(ip, sym.fresh("variables", sym.Ref), "Variable"))
+        # the list is a function of the model state (content identifier; list identity is never relied upon)
+        c.returns(lambda cc: ip.schema.seq_of_base(ip, varlist_base(before), "Variable"))
 
         def post(res):
             if not isinstance(res, SSeq) or not res.tag:
@@ -432,5 +441,14 @@ def install_vars(reg, src):
                 av = st_.var("all_vars")
                 return av.member(nm) == VARSET(st_.i)
             c.loop(2, inv2, havoc={"all_vars": T.custom(lambda ip_, h: SSet(lambda n_, t=sym.fresh("memhv", NAMESET): z3.Select(t, n_), "havoc"))})
+    def assume_varlist_valid(ip, sp, P, s0, base):
+        """C13 invariant for the variable-list cache, phrased for callers: the canonical list of the current model is
+        what `variables` specifies (names = mentioned variables, one per name, natural order)."""
+        nm = NM(ip)
+        EXPR = sp.S.F("expr", sym.Ref)
+        excon = named_exists(ip, "EXCON", [s0.cons, nm], s0.ncon, lambda k: sp.S.OCC(EXPR(z3.Select(s0.cons, k)), nm))
+        objocc = z3.And(z3.Not(s0.obj_none), sp.occ(Opaque(s0.obj, "Expression"), nm))
+        ip.path.assume(z3.And(z3.Select(NAMES_OF(base), nm) == z3.Or(objocc, excon(s0.ncon)), DISTINCT(base), NATSORTED(base)))
+    reg.assume_varlist_valid = assume_varlist_valid
     reg.NM = NM
     reg.NAMES_OF, reg.NATSORTED, reg.DISTINCT = NAMES_OF, NATSORTED, DISTINCT
